@@ -219,6 +219,33 @@ class ForestGen:
                     tgt2 = self.r.choice(dies[:i])
                     d.attrs.append(Attr(AT["abstract_origin" if which == "specification" else "specification"], FORM["ref4"], tgt2))
                     self.label("both-links")
+            if len(dies) >= 4 and self.chance(0.5):
+                self.add_link_tree(dies)
+
+    def add_link_tree(self, dies):
+        """A DIE with *both* links whose first target has a further link, and two leaves that supply
+        different values for attributes the inner DIEs lack: every implementation of integration
+        (`attribute`, @AT_x, `name`) has to walk this little tree in the same order."""
+        idx = sorted(self.r.sample(range(len(dies)), 4))
+        d_, c_, b_, a_ = (dies[i] for i in idx)          # references point backwards in creation order
+        if self.chance(0.5):
+            c_, d_ = d_, c_
+        la, lb, lc = self.r.choice([("abstract_origin", "specification", "specification"),
+                                    ("specification", "abstract_origin", "abstract_origin"),
+                                    ("abstract_origin", "specification", "abstract_origin"),
+                                    ("specification", "abstract_origin", "specification")])
+        LINKS = (AT["specification"], AT["abstract_origin"])
+        for x in (a_, b_, c_, d_):
+            x.attrs = [t for t in x.attrs if t.name not in LINKS + (AT["name"], AT["decl_line"])]
+        a_.attrs.append(Attr(AT[la], FORM["ref4"], b_))
+        a_.attrs.append(Attr(AT[lb], FORM["ref4"], c_))
+        b_.attrs.append(Attr(AT[lc], FORM[self.r.choice(["ref4", "ref_udata"])], d_))
+        for n, x in enumerate((c_, d_)):
+            if self.chance(0.85):
+                x.attrs.append(Attr(AT["name"], FORM["string"], b"leaf%d" % n))
+            if self.chance(0.85):
+                x.attrs.append(Attr(AT["decl_line"], FORM["data1"], 3 + n))
+        self.label("link-tree")
 
 
 # ------------------------------------------------------------------ model of the views
